@@ -135,6 +135,14 @@ CHECKS["C01"] = dict(
     note="Trusted: vsched semantics; in-process link for the schedule part; the matrix runs in real time (60 s deadlines are caps, not verdicts; 'lost' is judged 15 s after the barrier event arrived). Known finding: an event that arrives before the server's asynchronous connection handler registered its handlers is dropped. Sizes between the boundary values, 16 emitters and schedules over a real WebSocket are not covered.",
     design="3/C01")
 
+CHECKS["C07"] = dict(
+    engine="vsched",
+    category="model_checking",
+    technique="stateless model checking of the real upgrade state machines (client tryUpgradeTo/finishUpgradeTo, server maybeUpgrade/upgradeTo, polling Discard/NOOP/re-send) under a controlled scheduler, with fault enumeration over every failure step of the candidate transport",
+    text="A real Engine.IO client and server run over the in-process polling link; numbered text and binary messages are sent in both directions by two sender threads while the upgrade is driven over a reliable duplex pipe handed to the real upgrade code as candidate transport. All schedules up to the deviation bound are explored for the fault-free upgrade and for: handshake refused, probe ping lost, probe pong lost (stall until the upgrade timeout in virtual time), pipe cut before ping / before pong / before UPGRADE, UPGRADE lost. Oracle: the multiset of messages received on each side equals the sent one (nothing lost or duplicated), UpgradeDone once and both sides on the new transport after a fault-free upgrade; after a failed attempt no close, both sides still on polling and traffic sent afterwards is delivered; a loss after the client has swapped may only end the connection with a reported close.",
+    note="Trusted: vsched semantics; rig R4 (ordered reliable message pipe named 'webtransport') replaces the nhooyr WebSocket / QUIC byte transports, which cannot be put under the scheduler; the real polling->websocket upgrade end to end over loopback is exercised by C01's matrix (transport 'upgrade') without schedule control. Scope: 2 (quick) / 3 (thorough) messages each way, bound 2/3.",
+    design="3/C07")
+
 NOT_APPLICABLE = {
 }
 
